@@ -7,9 +7,10 @@ Local Open Scope list_scope.
 Definition mres_code (r : mres) : nat :=
   match r with MDone false => 0 | MDone true => 1 | MRaised => 2 | MFuel => 3 end%nat.
 
-(* observed class of the ExpectOutcome built by prepare: *)
+(* observed class of the ExpectOutcome built by prepare (ORaises: an exception
+   escaped — the model never predicts it; ORejected: a PermFail was returned) *)
 Inductive pobs :=
-| ORaises | OUnknown | OOk
+| ORaises | ORejected | OUnknown | OOk
 | OOut (cls : nat) (msg : string) (delay : option Z).   (* sev numbering of Outcome.v *)
 
 Inductive case :=
@@ -33,7 +34,7 @@ Definition ojson_eqb := opt_eqb json_eqb.
 
 Definition pobs_of (p : parsed) : option pobs :=
   match p with
-  | PRaises => Some ORaises
+  | PRejected => Some ORejected
   | PUnknown => Some OUnknown
   | PUnmodelled => None
   | PExpect None => Some OOk
@@ -42,7 +43,7 @@ Definition pobs_of (p : parsed) : option pobs :=
 
 Definition pobs_eqb (a b : pobs) : bool :=
   match a, b with
-  | ORaises, ORaises | OUnknown, OUnknown | OOk, OOk => true
+  | ORaises, ORaises | ORejected, ORejected | OUnknown, OUnknown | OOk, OOk => true
   | OOut c m d, OOut c' m' d' => Nat.eqb c c' && String.eqb m m' && opt_eqb Z.eqb d d'
   | _, _ => false
   end.
